@@ -659,7 +659,7 @@ pub fn run_inner<S: Scenario>(s: S, o: &Opts) -> i32 {
         }
     }
     println!(
-        "DONE property={} runs={} steps={} distinct={} violations={} (unlisted classes {}) digest={:016x} wall={:.1}s",
+        "DONE property={} runs={} steps={} distinct={} findings_hit={} unlisted_classes={} digest={:016x} wall={:.1}s",
         s.id(), stats.evaluations, stats.steps, stats.distinct.len(), total_viol, unlisted, all.finish(), wall
     );
     if unlisted > 0 {
